@@ -663,6 +663,12 @@ func genC10Lin(t *rapid.T) *C10Case {
 		}
 		c.Setup = append(c.Setup, LRUOp{Kind: "L", Key: rapid.SampledFrom([]string{"a", "b", "c"}).Draw(t, "afterBurst")})
 	}
+	setupVal := map[string]int{}
+	for _, op := range c.Setup {
+		if op.Kind == "S" {
+			setupVal[op.Key] = op.Val
+		}
+	}
 	G := rapid.IntRange(2, 4).Draw(t, "goroutines")
 	for g := 0; g < G; g++ {
 		n := rapid.IntRange(1, 5).Draw(t, "n")
@@ -675,7 +681,11 @@ func genC10Lin(t *rapid.T) *C10Case {
 			k := rapid.SampledFrom([]string{"a", "b", "c"}).Draw(t, "key")
 			switch rapid.IntRange(0, 9).Draw(t, "op") {
 			case 0, 1, 2, 3:
-				ops = append(ops, LRUOp{Kind: "S", Key: k, Val: g*100 + i + 1})
+				val := g*100 + i + 1
+				if sv, ok := setupVal[k]; ok && rapid.IntRange(0, 2).Draw(t, "sameValue") == 1 {
+					val = sv // the value the key holds since the sequential prefix: a Store that changes nothing but the order
+				}
+				ops = append(ops, LRUOp{Kind: "S", Key: k, Val: val})
 			case 4, 5, 6:
 				ops = append(ops, LRUOp{Kind: "L", Key: k})
 			case 7:
